@@ -69,7 +69,8 @@ PLANS = [
     "just a string",
     {"plan": ["ünï", "日本"], "rationale": "unicode ✓"},
 ]
-WRAPS = ["plain", "fenced_json", "fenced_none", "fenced_py", "prose_before", "prose_after", "two_objects", "torn", "oversized", "nan", "nested_deep", "empty"]
+WRAPS = ["plain", "fenced_json", "fenced_none", "fenced_py", "prose_before", "prose_after", "two_objects", "torn", "oversized", "nan", "nested_deep", "empty",
+         "nested_obj", "nested_in_plan", "nested_fenced", "nested_open", "bigint", "bigexp", "surrogate", "bom", "nul", "dup_keys"]
 TRANSPORT = ["ok", "ok", "ok", "urlerror", "timeout", "non_utf8", "not_json_envelope", "response_not_string", "torn_envelope", "stall", "http_500"]
 
 
@@ -119,10 +120,12 @@ def _strict(text: str) -> Optional[Dict[str, Any]]:
     return {"plan": pl, "rationale": ra}
 
 
-def _body(step: Dict[str, Any]) -> bytes:
+def _text(step: Dict[str, Any]) -> str:
+    """The planner's answer text (what reaches the sanitiser when the transport is healthy)."""
     obj = PLANS[int(step["plan"]) % len(PLANS)]
     txt = json.dumps(obj, ensure_ascii=False)
     w = step["wrap"]
+    depth = 1200 + (int(step.get("cut", 0)) % 7) * 1100   # 1200 .. 7800 levels, all under the 20000 character guard
     if w == "fenced_json":
         txt = "```json\n%s\n```" % txt
     elif w == "fenced_none":
@@ -143,8 +146,33 @@ def _body(step: Dict[str, Any]) -> bytes:
         txt = '{"plan": ["p"], "rationale": "r", "reflection": NaN}'
     elif w == "nested_deep":
         txt = "[" * 5000 + "]" * 5000
+    elif w == "nested_obj":
+        txt = '{"a":' * min(depth, 3900) + "1" + "}" * min(depth, 3900)
+    elif w == "nested_in_plan":
+        txt = '{"plan": [' + "[" * depth + "]" * depth + '], "rationale": "r"}'
+    elif w == "nested_fenced":
+        txt = "```json\n" + "[" * depth + "]" * depth + "\n```"
+    elif w == "nested_open":
+        txt = "[" * (2 * depth)
+    elif w == "bigint":
+        txt = '{"plan": ["p"], "rationale": "r", "reflection": %s}' % ("9" * 5000)
+    elif w == "bigexp":
+        txt = '{"plan": ["p"], "rationale": "r", "reflection": 1e999999}'
+    elif w == "surrogate":
+        txt = '{"plan": ["\\ud800"], "rationale": "\\udfff x"}'
+    elif w == "bom":
+        txt = "\ufeff" + txt
+    elif w == "nul":
+        txt = txt[: len(txt) // 2] + "\x00" + txt[len(txt) // 2:]
+    elif w == "dup_keys":
+        txt = '{"plan": ["a"], "plan": 5, "rationale": "r", "rationale": "s"}'
     elif w == "empty":
         txt = ""
+    return txt
+
+
+def _body(step: Dict[str, Any]) -> bytes:
+    txt = _text(step)
     tr = step["transport"]
     if tr == "not_json_envelope":
         return b"<html>busy</html>"
@@ -243,6 +271,16 @@ def _peer(p: Dict[str, Any], stats: Dict[str, int], faults: Dict[str, int]) -> L
                             bad("sanitiser-accepted-non-conforming", "%s" % ctxs)
                     except Exception as e:  # noqa: BLE001
                         bad("sanitiser-raised:%s" % type(e).__name__, "%s: %r" % (ctxs, e))
+                    # ... and on the answer text itself (the envelope hides its structure inside a JSON string)
+                    try:
+                        inner = _text(step)
+                        ok, obj = parse_and_validate(inner, PLANNER_V1)
+                        if ok and _strict(inner) is None:
+                            bad("sanitiser-accepted-non-conforming:%s" % step["wrap"], "%s" % ctxs)
+                        elif ok and (obj.get("plan") != _strict(inner)["plan"] or obj.get("rationale") != _strict(inner)["rationale"]):
+                            bad("sanitiser-altered-plan", "%s: %s" % (ctxs, str(obj)[:200]))
+                    except Exception as e:  # noqa: BLE001
+                        bad("sanitiser-raised:%s" % type(e).__name__, "%s (answer text): %r" % (ctxs, e))
                     # speaker path with the same peer
                     adapter = policy.build_llm_adapter(cfg)
                     plan_obj = real_deliberate({"cfg": {"t3": {"tokens": int(p["tokens"])}, "t2": {}}, "agent": {"caps": {"ops": 3}}, "t2": {"metrics": {}}, "t1": {}, "text": {}})
